@@ -46,11 +46,9 @@ impl ValueWriter for &mut ValRec {
         _flags: MetricFlags<'_>,
     ) {
         let v: Vec<String> = distribution.into_iter().map(obs).collect();
-        let dims: Vec<String> = dimensions.into_iter().map(|(k, v)| format!("{k}={v}")).collect();
-        let mut val = v.join(",");
-        if !dims.is_empty() {
-            val.push_str(&format!("[{}]", dims.join(",")));
-        }
+        // dimensions (`WithDimensions`) and flags (`ForceFlag`) added by wrappers are C15's subject, not recorded
+        let _ = dimensions;
+        let val = v.join(",");
         self.0 = Some(format!("m:{}:{}", hex(&val), hex(unit.name())));
     }
     fn error(self, error: ValidationError) {
@@ -120,5 +118,52 @@ impl metrique::CloseValue for &RawEntry {
     type Closed = RawEntry;
     fn close(self) -> RawEntry {
         self.clone()
+    }
+}
+
+// ------------------------------------------------------------------------------------------------
+// Field types whose `CloseValue` yields the closed child behind each container for which
+// metrique-core has a forwarding `InflectableEntry<NS>` impl (inflectable_entry_impls.rs):
+// `&T`, `Box<T>`, `Arc<T>`, `Cow<'_, T>` (`Option<T>`, `ForceFlag<T, F>`, `WithDimensions<T, N>`
+// come from metrique-core's own CloseValue impls). Each closes by value and by reference, so it
+// can sit below by-reference (`subfield`) parents.
+
+macro_rules! closed_behind {
+    ($name:ident, $closed:ty, $mk:expr $(, $bound:path)?) => {
+        #[derive(Clone)]
+        pub struct $name<C>(pub C);
+        impl<C, E: 'static $(+ $bound)?> metrique::CloseValue for $name<C>
+        where
+            C: metrique::CloseValue<Closed = E>,
+        {
+            type Closed = $closed;
+            fn close(self) -> Self::Closed {
+                let e: E = self.0.close();
+                ($mk)(e)
+            }
+        }
+        impl<'x, C, E: 'static $(+ $bound)?> metrique::CloseValue for &'x $name<C>
+        where
+            &'x C: metrique::CloseValue<Closed = E>,
+        {
+            type Closed = $closed;
+            fn close(self) -> Self::Closed {
+                let e: E = (&self.0).close();
+                ($mk)(e)
+            }
+        }
+    };
+}
+
+closed_behind!(WRef, &'static E, |e: E| -> &'static E { Box::leak(Box::new(e)) });
+closed_behind!(WBox, Box<E>, |e: E| Box::new(e));
+closed_behind!(WArc, std::sync::Arc<E>, |e: E| std::sync::Arc::new(e));
+closed_behind!(WCow, Cow<'static, E>, |e: E| -> Cow<'static, E> { Cow::Owned(e) }, Clone);
+
+/// a `FlagConstructor` for `ForceFlag<Child, NoFlags>` fields
+pub struct NoFlags;
+impl metrique::writer::core::value::FlagConstructor for NoFlags {
+    fn construct() -> MetricFlags<'static> {
+        MetricFlags::empty()
     }
 }
